@@ -14,18 +14,91 @@ SPECIAL = [
 ]
 
 
+def _host_state_programs():
+    """programs whose outcome depends on process-wide host settings an evaluation could leave changed:
+    the integer ↔ decimal-string conversion limit (printing, ㅁㅈ, ㅈㅅ of > 4300 digits), the working directory
+    (relative file paths after imports from sub-directories), the recursion bookkeeping after a stack-limit abort"""
+    from . import c14
+    big = bi('ㅅ', lit(10), lit(5000))
+    return [
+        render(big),                                             # prints 5001 digits
+        render(bi('ㅈㄷ', bi('ㅁㅈ', big))),                      # len(str(10**5000)) through ㅁㅈ
+        render(bi('ㄴ', bi('ㅈㅅ', bi('ㅁㅈ', big)), big)),         # int(str(10**5000)) == 10**5000 through ㅈㅅ
+        render(bi('ㅈㄷ', bi('ㅁㅈ', bi('ㅁㄹ', big, big)))),       # the same inside a list
+        render(bi('ㅁㅈ', bi('ㅅ', lit(10), lit(4299)))),          # just under the host default limit
+        c14.program("s20.bin", 'a+', [('write', b'ab'), ('seek', 0), ('read', -1), ('close',)]),
+        c14.program("나/s20.bin", 'w+', [('write', b'xyz'), ('seek', 1), ('read', 1), ('close',)]),
+        render(bi('ㅂ', str_lit("나/다.pbhhg"))) + " (ㄷ ㄱㅇㄱ ㅎㄴ ㅎ) ㅎㄴ",
+        "ㄱ (ㄱㅇㄱ ㄴ ㄷㅎㄷ ㄱㅇ ㅎㄴ ㅎ) ㅎㄴ",                   # unbounded non-tail-free loop: limit or runs forever? tail call: bounded by timeout
+    ][:-1]
+
+
+SESSION_SCRIPT = r'''
+# Runs sessions in pristine processes: this parent process only imports the interpreter and never
+# evaluates anything; every stand-alone run and every session runs in its own forked child, so that
+# "stand-alone" really means "first evaluation in a fresh process state".
+import sys, os, pickle, tempfile
+sys.path.insert(0, sys.argv[1])
+from uh import impl
+from uh.corr import obs
+sessions, FS, STDIN = pickle.load(open(sys.argv[2], 'rb'))
+impl.sandbox()
+tmp = tempfile.mktemp(prefix='uhverif_c20_')
+
+def in_child(fn):
+    pid = os.fork()
+    if pid == 0:
+        try:
+            out = fn()
+        except BaseException as e:
+            out = {'kind': 'harness-error', 'msg': repr(e)}
+        with open(tmp, 'wb') as f:
+            pickle.dump(out, f)
+        os._exit(0)
+    os.waitpid(pid, 0)
+    with open(tmp, 'rb') as f:
+        out = pickle.load(f)
+    os.unlink(tmp)
+    return out
+
+fails = []
+alone_cache = {}
+for progs in sessions:
+    for p in progs:
+        if p not in alone_cache:
+            alone_cache[p] = in_child(lambda: obs(impl.run_main(p, STDIN, FS, True, 10.0, reset_registry=True)))
+    seq = in_child(lambda: [obs(impl.run_main(p, STDIN, FS, True, 10.0, reset_registry=(i == 0))) for i, p in enumerate(progs)])
+    if isinstance(seq, dict):
+        fails.append((progs, -1, seq, None)); continue
+    for i, p in enumerate(progs):
+        if seq[i] != alone_cache[p]:
+            fails.append((progs, i, seq[i], alone_cache[p]))
+            break
+pickle.dump(fails, open(sys.argv[3], 'wb'))
+'''
+
+
 @monitor('c20_session')
 def _session(case, a):
-    """`data` = the session (list of programs). Each program's outcome inside the session — after
-    everything before it ran in the same process — must equal its stand-alone outcome."""
-    progs = case.data
-    alone = [obs(impl.run_main(p, "in1\nin2\n", FS, True, 10.0, reset_registry=True)) for p in progs]
-    first = True
-    for i, p in enumerate(progs):
-        r = obs(impl.run_main(p, "in1\nin2\n", FS, True, 10.0, reset_registry=first))
-        first = False
-        if r != alone[i]:
-            return f"program #{i} {p[:60]!r} gives {r} after {i} earlier evaluations, {alone[i]} stand-alone"
+    """`data` = a batch of sessions (lists of programs). Each program's outcome inside its session — after
+    everything before it ran in the same process — must equal its stand-alone outcome in a fresh process
+    state (both measured in forked children of a process that never evaluated anything)."""
+    import tempfile, pickle
+    sessions = case.data
+    with tempfile.TemporaryDirectory(prefix='uhverif_c20_') as d:
+        sf, inp, outp = os.path.join(d, 'run.py'), os.path.join(d, 'in.pkl'), os.path.join(d, 'out.pkl')
+        open(sf, 'w').write(SESSION_SCRIPT)
+        pickle.dump((sessions, FS, "in1\nin2\n"), open(inp, 'wb'))
+        env = dict(os.environ, UH_REPO=common.REPO)
+        p = subprocess.run([sys.executable, sf, os.path.dirname(os.path.dirname(os.path.dirname(os.path.abspath(__file__)))), inp, outp],
+                           capture_output=True, text=True, env=env, cwd=d, timeout=600)
+        if p.returncode != 0 or not os.path.exists(outp):
+            return f"session runner failed: {p.stderr[-400:]}"
+        fails = pickle.load(open(outp, 'rb'))
+    if fails:
+        progs, i, got, want = fails[0]
+        return (f"{len(fails)} session(s) differ; first: program #{i} {progs[i][:60]!r} gives {got} after "
+                f"{[q[:40] for q in progs[:i]]}, {want} stand-alone in a fresh process")
     return None
 
 
@@ -75,7 +148,8 @@ def _hashseed(case, a):
 def cases(rng, tier):
     n = 60 if tier == 'quick' else 1500
     g = gen.Gen(rng, max_depth=4)
-    pool = SPECIAL + [render(g.program()) for _ in range(40)] + [render(gen.gen_illtyped(rng, g)) for _ in range(15)]
+    pool = SPECIAL + _host_state_programs() + [render(g.program()) for _ in range(40)] + [render(gen.gen_illtyped(rng, g)) for _ in range(15)]
+    sessions = []
     for _ in range(n):
         k = rng.randint(2, 12)
         progs = [rng.choice(pool) for _ in range(k)]
@@ -83,7 +157,15 @@ def cases(rng, tier):
             progs = progs + progs[:rng.randint(1, 3)]          # repetitions
         if rng.random() < 0.3:
             rng.shuffle(progs)
-        yield Case(program=progs[0], fs=FS, stdin="in1\nin2\n", tag='session', monitor='c20_session', data=progs, skip_model=True, timeout=20)
+        sessions.append(progs)
+    # every ordered pair of the special / host-state programs: q after p must equal q alone
+    sp = SPECIAL + _host_state_programs()
+    pairs = [[p1, q] for p1 in sp for q in sp]
+    B = 24
+    for tag, ss in (('session', sessions), ('pair', pairs)):
+        for i in range(0, len(ss), B):
+            yield Case(program=ss[i][0], fs=FS, stdin="in1\nin2\n", tag=tag, monitor='c20_session', data=ss[i:i + B],
+                       skip_model=True, timeout=900)
     # stand-alone outcome of every pool program equals the model's (so "stand-alone" means the specified outcome)
     for p in pool:
         yield Case(program=p, fs=FS, stdin="in1\nin2\n", tag='standalone')
@@ -104,9 +186,9 @@ SPEC = {
     'lean': ['C20'],
     'cases': cases,
     'stream': 'C20 session stream',
-    'rule': 'sessions of 2–15 programs (with repetitions and shuffles) drawn from a pool of imports (by literal, by path, '
+    'rule': 'all ordered pairs of the special and host-state programs, and sessions of 2–15 programs (with repetitions and shuffles) drawn from a pool of imports (by literal, by path, '
             'nested, failing, self-importing a failing module), stack-limit aborts, I/O, dictionaries, built-in modules, '
-            'random typed and ill-typed programs, all evaluated in one process without resetting anything: every outcome '
+            'programs that depend on process-wide host settings (printing / ㅁㅈ / ㅈㅅ of integers beyond 4300 digits, relative file paths after imports from sub-directories), random typed and ill-typed programs, all evaluated in one process without resetting anything: every outcome '
             '(result, exception, stdout, consumed stdin) must equal the stand-alone outcome, which in turn must equal the '
             'model\'s; one batch of dictionary / equality / printing programs in fresh processes under 3 (quick) / 16 '
             'PYTHONHASHSEED values must print identically. Non-trivial: all sessions',
